@@ -22,6 +22,22 @@ pub struct PTrace {
     pub last_commit: std::collections::BTreeMap<u64, u64>,
     /// the longest committed prefix reported by any node (fills prefixes hidden by snapshots)
     pub committed_log: Vec<Ent>,
+    /// read-index layer trace (P/Read.v): the log-layer events plus read requests, heartbeat
+    /// acknowledgements and served reads
+    pub rev: Vec<u64>,
+    pub rcount: u64,
+    /// read events are recorded (Safe read-only option on every node)
+    pub reads: bool,
+}
+
+/// id of a read request context
+pub fn ctx_id(ctx: &[u8]) -> u64 {
+    let mut h: u64 = 0xcbf29ce484222325;
+    for b in ctx {
+        h ^= *b as u64;
+        h = h.wrapping_mul(0x100000001b3);
+    }
+    1 + (h % (1u64 << 40))
 }
 
 /// payload id of an entry: 0 for the empty normal entry (a leader's no-op), else a digest
@@ -82,8 +98,7 @@ impl PTrace {
             MessageType::MsgAppend | MessageType::MsgHeartbeat | MessageType::MsgSnapshot => 3,
             MessageType::MsgAppendResponse if !m.reject && m.index >= 1 => {
                 // a released acknowledgement (log layer only)
-                self.lev.extend_from_slice(&[9, m.from, m.term, m.index]);
-                self.lcount += 1;
+                self.lpush(&[9, m.from, m.term, m.index]);
                 return;
             }
             _ => return,
@@ -106,8 +121,34 @@ impl PTrace {
     fn both(&mut self, v: &[u64]) {
         self.ev.extend_from_slice(v);
         self.count += 1;
+        self.lpush(v);
+    }
+    /// one event of the log-layer trace (and of the read-layer trace)
+    fn lpush(&mut self, v: &[u64]) {
         self.lev.extend_from_slice(v);
         self.lcount += 1;
+        self.rev.extend_from_slice(v);
+        self.rcount += 1;
+    }
+    /// read-layer events: `10 c ctx idx` request recorded, `11 q c t ctx` heartbeat
+    /// acknowledgement created, `12 c ctx idx` read served
+    pub fn read_req(&mut self, c: u64, ctx: &[u8], idx: u64) {
+        if self.enabled && self.reads {
+            self.rev.extend_from_slice(&[10, c, ctx_id(ctx), idx]);
+            self.rcount += 1;
+        }
+    }
+    pub fn hb_ack(&mut self, q: u64, c: u64, t: u64, ctx: &[u8]) {
+        if self.enabled && self.reads {
+            self.rev.extend_from_slice(&[11, q, c, t, ctx_id(ctx)]);
+            self.rcount += 1;
+        }
+    }
+    pub fn read_serve(&mut self, c: u64, ctx: &[u8], idx: u64) {
+        if self.enabled && self.reads {
+            self.rev.extend_from_slice(&[12, c, ctx_id(ctx), idx]);
+            self.rcount += 1;
+        }
     }
 
     fn full_log(prev: &[Ent], committed: &[Ent], first_index: u64, ents: &[raft::eraftpb::Entry]) -> Vec<Ent> {
@@ -142,14 +183,14 @@ impl PTrace {
             self.committed_log = new[..commit as usize].to_vec();
         }
         if new != prev || commit != pc || !acks.is_empty() {
-            self.lev.extend_from_slice(&[7, n, new.len() as u64]);
+            let mut v = vec![7, n, new.len() as u64];
             for e in &new {
-                self.lev.extend_from_slice(&[e.0, e.1]);
+                v.extend_from_slice(&[e.0, e.1]);
             }
-            self.lev.push(commit);
-            self.lev.push(acks.len() as u64);
-            self.lev.extend_from_slice(acks);
-            self.lcount += 1;
+            v.push(commit);
+            v.push(acks.len() as u64);
+            v.extend_from_slice(acks);
+            self.lpush(&v);
         }
         self.ghost.insert(n, new);
         self.last_commit.insert(n, commit);
@@ -163,13 +204,22 @@ impl PTrace {
         let prev = self.dghost.get(&n).cloned().unwrap_or_default();
         let new = Self::full_log(&prev, &self.committed_log, first_index, ents);
         if new != prev {
-            self.lev.extend_from_slice(&[8, n, new.len() as u64]);
+            let mut v = vec![8, n, new.len() as u64];
             for e in &new {
-                self.lev.extend_from_slice(&[e.0, e.1]);
+                v.extend_from_slice(&[e.0, e.1]);
             }
-            self.lcount += 1;
+            self.lpush(&v);
         }
         self.dghost.insert(n, new);
+    }
+
+    pub fn rlines(&self) -> (Vec<u64>, Vec<u64>) {
+        let mut c = vec![self.inc.len() as u64];
+        c.extend_from_slice(&self.inc);
+        c.push(0);
+        c.push(self.rcount);
+        c.extend_from_slice(&self.rev);
+        (c, vec![1, self.rcount])
     }
 
     pub fn llines(&self) -> (Vec<u64>, Vec<u64>) {
